@@ -34,6 +34,8 @@ class WsDef:
         self.fn_stack = []
         self.inlined = []
         self.cur_line = None
+        self.carrying = set()                  # fields that receive results through out-parameters / accumulation
+        self.pending = {}                      # field -> (node, fn) of the latest write nothing has read yet
 
     # ---- helpers ---------------------------------------------------------------------------------------
     def field_of(self, n):
@@ -73,6 +75,7 @@ class WsDef:
 
     def read(self, fld, node, idx=None):
         self.mentions[fld] += 1
+        self.pending.pop(fld, None)
         st = self.state[fld]
         if st == "D":
             return
@@ -85,6 +88,11 @@ class WsDef:
 
     def write(self, fld, node, whole, idx=None, how=""):
         self.mentions[fld] += 1
+        if isinstance(node, dict) and node.get("line") is None and self.cur_line is not None:
+            node = dict(node, line=self.cur_line)
+        self.pending[fld] = (node, self.cur())
+        if how.startswith("out-parameter") or how == "accumulation":
+            self.carrying.add(fld)
         if whole:
             self.state[fld] = "D"
             self.defs[fld] = (node, how, self.cur())
@@ -122,6 +130,11 @@ class WsDef:
             if c.get("op") in ("+=", "-=", "*=", "/=") and obj is not None:
                 self.scan(n.get("args", []))
                 self.scan(obj)
+                base, partial, idx, iargs = self.strip_elem(obj)
+                fld = self.field_of(base)
+                if fld is not None:
+                    self.write(fld, n, False, idx, how="accumulation")
+                    self.mentions[fld] -= 1
                 return
             if obj is not None and nm in SETTERS:
                 base, partial, idx, iargs = self.strip_elem(obj)
@@ -162,6 +175,12 @@ class WsDef:
             # calls into the optimizer's own code (member functions, lambdas): arguments, then the body's accesses
             self.scan(obj)
             self.scan(n.get("args", []))
+            pm = c.get("pm", [])
+            for i, a in enumerate(n.get("args", [])):
+                if isinstance(a, dict) and a.get("k") == "mem" and a.get("cls") == self.wsrec and i < len(pm) and pm[i] == "ref":
+                    # handed to a callee (cost functor, accumulating helper) as a mutable out-parameter: it comes back modified
+                    self.write(a["field"], n, False, how="out-parameter")
+                    self.mentions[a["field"]] -= 1
             fid = c.get("fid")
             if fid is not None and c.get("repo"):
                 g = self.F.by_fid.get(fid) if hasattr(self.F, "by_fid") else None
@@ -212,6 +231,8 @@ class WsDef:
         self.scan(r)
         if op != "=":
             self.read(fld, node, idx)
+            self.write(fld, node, False, idx, how="accumulation")
+            self.mentions[fld] -= 1
             return
         self.write(fld, node, not partial, idx, how="assignment")
 
